@@ -18,6 +18,8 @@ def _impl(a):
 
 
 def _judge(a, out):
+    if "NOT-RUN" in out:
+        return []
     if "HARNESS-TIMEOUT" in out:
         return [("c06gate -", out)]     # the real object never came back: judged as a failure of the property, not of the machine
     lines = []
@@ -40,7 +42,7 @@ def _judge(a, out):
     return lines or [("c06gate -", "0")]
 
 
-LIFE = C.Kind("client-life", impl=_impl, model=lambda a: "clife " + " ".join(a["acts"]), judge=_judge,
+LIFE = C.Kind("client-life", impl=_impl, model=lambda a: "clife " + " ".join(a["acts"]), judge=_judge, compare=lambda m, i: "NOT-RUN" in i or m == i,
               classify=lambda a, o: f"{a['api']}:len{len(a['acts']) // 5 * 5}", nontrivial=lambda a, o: (a["api"], tuple(a["acts"])),
               shrink=lambda a: _shrunk(a))
 KINDS = {"client-life": LIFE}
@@ -127,8 +129,8 @@ def _double(acts):
     return False
 
 
-ANY = C.Kind("client-life-unrestricted", impl=_impl, model=lambda a: "clife " + " ".join(a["acts"]), judge=_judge,
-             classify=lambda a, o: f"{a['api']}:{'connects-over-open-connection' if _double(a['acts']) else 'alternating'}:maxopen{max(int(x.split(':')[2]) for x in o.split(' '))}",
+ANY = C.Kind("client-life-unrestricted", impl=_impl, model=lambda a: "clife " + " ".join(a["acts"]), judge=_judge, compare=lambda m, i: "NOT-RUN" in i or m == i,
+             classify=lambda a, o: f"{a['api']}:{'connects-over-open-connection' if _double(a['acts']) else 'alternating'}:maxopen{max([int(x.split(':')[2].rstrip('R')) for x in o.split(' ') if x.count(':') == 2 and x.split(':')[2].rstrip('R').isdigit()] or [0])}",
              nontrivial=lambda a, o: (a["api"], tuple(a["acts"])),
              shrink=lambda a: _shrunk(a))
 KINDS["client-life-unrestricted"] = ANY
@@ -149,7 +151,7 @@ def with_another_client(rng, a):
     acts, oc = [], False
     for x in a["acts"]:
         while rng.random() < 0.45:
-            o = rng.choice(["o:cok", "o:cok", "o:op", "o:disc"] if not oc else ["o:op", "o:disc", "o:op", "o:cok"])
+            o = rng.choice(["o:cok", "o:cok", "o:op", "o:disc", "o:cpdrop"] if not oc else ["o:op", "o:disc", "o:op", "o:cok", "o:cpdrop"])
             oc = True if o == "o:cok" else False if o == "o:disc" else oc
             acts.append(o)
         acts.append(x)
@@ -161,6 +163,7 @@ def with_another_client(rng, a):
 
 FIXED += [{"api": t, "acts": acts} for t in ("type1", "type2") for acts in (
     ["ccancel", "cok", "op", "disc", "ccancel", "ccancel", "with", "cok", "disc"],
+    ["o:cpdrop", "cok", "o:cpdrop", "op", "o:cpdrop", "disc", "o:cpdrop", "cok", "op", "disc"],
     ["cok", "opdown", "op", "opeof", "opeofdown", "opeofdown", "disc", "cok", "opchat", "disc", "cok", "op", "disc"],
     ["o:copy", "cok", "o:cok", "op", "o:disc", "op", "disc", "o:cok", "o:op", "cok", "disc", "o:disc"],
     ["cok", "o:cok", "op", "o:op", "op", "o:disc", "op", "disc", "o:cok", "cok", "o:disc", "op", "disc"],
